@@ -318,5 +318,30 @@ func c09Facts() {
 	}
 	emit("/-- the options `DeleteRepo` passes to `DeleteBundle` in addition to its own -/")
 	emit("def c09DeleteRepoBundleOpts : List String := %s", leanStrList(opts))
+	// DeleteBundle: the arguments of its store.Delete calls in source order — the file lists first,
+	// the descriptor (`pth`) last (C09_delete_crash_rerun rests on that order)
+	var dels []string
+	if fd := funcDecl(cfiles, "DeleteBundle"); fd != nil {
+		ast.Inspect(fd, func(nd ast.Node) bool {
+			ce, ok := nd.(*ast.CallExpr)
+			if !ok {
+				return true
+			}
+			if se, ok := ce.Fun.(*ast.SelectorExpr); ok && se.Sel.Name == "Delete" && len(ce.Args) == 2 {
+				if id, ok := se.X.(*ast.Ident); ok && id.Name == "store" {
+					if a, ok := ce.Args[1].(*ast.Ident); ok {
+						dels = append(dels, a.Name)
+					} else {
+						dels = append(dels, "?")
+					}
+				}
+			}
+			return true
+		})
+	} else {
+		fail("C09: DeleteBundle not found")
+	}
+	emit("/-- what `DeleteBundle` deletes from the metadata store, in source order (`pth` is the descriptor) -/")
+	emit("def c09DeleteBundleDeletes : List String := %s", leanStrList(dels))
 	emit("")
 }
